@@ -206,7 +206,7 @@ fn rect(x0: f64, y0: f64, x1: f64, y1: f64) -> Polygon<f64> {
 }
 
 /// Boolean-operation scenarios. Returns (input edges, popped events, result polygons).
-pub fn bool_scenario(n: usize, shape: &str, op: &str) -> (u64, u64, u64) {
+pub fn bool_scenario(n: usize, shape: &str, op: &str) -> (u64, u64, u64, i64) {
     let (a, b): (MultiPolygon<f64>, MultiPolygon<f64>) = match shape {
         // n thin rectangles all starting at x = 0 (monotone status-line insertion: a chain-shaped
         // tree of 2n segments) against a small subject on the left: intersection / difference
@@ -296,11 +296,43 @@ pub fn bool_scenario(n: usize, shape: &str, op: &str) -> (u64, u64, u64) {
             let c = Polygon::new(LineString(vec![Coord { x: 0.0, y: 0.0 }, Coord { x: -1.0, y: 1.0 }, Coord { x: -1.0, y: -1.0 }, Coord { x: 0.0, y: 0.0 }]), vec![]);
             (MultiPolygon(tris), MultiPolygon(vec![c]))
         }
+        // two crossing combs with n teeth each (see gen::combx_pair): 8n edges, 4n^2 crossings - the
+        // result has a closed form (n^2 squares of area 4 in the intersection, ...); "combxfar": the
+        // first comb carries an additional far-away rectangle (area 6)
+        "combx" | "combxfar" => {
+            let t = n as i64;
+            let l = 4 * t + 6;
+            let mut a: Vec<(i64, i64)> = vec![(0, 0)];
+            for i in 0..t {
+                a.push((l, 4 * i));
+                a.push((l, 4 * i + 2));
+                if i + 1 < t {
+                    a.push((2, 4 * i + 2));
+                    a.push((2, 4 * i + 4));
+                }
+            }
+            a.push((0, 4 * (t - 1) + 2));
+            let b: Vec<(i64, i64)> = a.iter().rev().map(|p| (p.1 + 3, p.0 - 3)).collect();
+            let ring = |r: &Vec<(i64, i64)>| {
+                let mut v: Vec<Coord<f64>> = r.iter().map(|p| Coord { x: p.0 as f64, y: p.1 as f64 }).collect();
+                v.push(v[0]);
+                Polygon::new(LineString(v), vec![])
+            };
+            let mut pa = vec![ring(&a)];
+            if shape == "combxfar" {
+                pa.push(rect(100000.0, 50.0, 100003.0, 52.0));
+            }
+            (MultiPolygon(pa), MultiPolygon(vec![ring(&b)]))
+        }
         _ => panic!("unknown shape {}", shape),
     };
     let edges: u64 = a.0.iter().chain(b.0.iter()).map(|p| (p.exterior().0.len() - 1) as u64).sum();
     geo_booleanop::boolean::verif::set_budget(8 * edges * 64 + 64); // generous linear budget: these inputs have O(n) intersections
     let r = a.boolean(&b, crate::run::op_of(op));
     let popped = geo_booleanop::boolean::verif::popped();
-    (edges, popped, r.0.len() as u64)
+    // projection of the result: number of polygons and twice its area (exterior minus holes; exact
+    // for the integer scenarios)
+    let ring_area2 = |ls: &LineString<f64>| -> f64 { ls.0.windows(2).map(|w| w[0].x * w[1].y - w[1].x * w[0].y).sum::<f64>().abs() };
+    let area2: f64 = r.0.iter().map(|p| ring_area2(p.exterior()) - p.interiors().iter().map(ring_area2).sum::<f64>()).sum();
+    (edges, popped, r.0.len() as u64, area2.round() as i64)
 }
